@@ -284,6 +284,65 @@ theorem cut_rings_join_components (rings : List CutRing) (hv : ∀ r ∈ rings, 
     · rw [e]; have := hlen s hs; simp [Seg.rev]; omega
   exact join_groups_are_components shuffled hfresh (by rw [hcompact]; exact hdeg) l1 g l2 hout
 
+/-! ### with or without orientation annotations -/
+
+/-- the members without their orientation annotations -/
+def unannotated (ms : List Seg) : List Seg := ms.map fun s => { s with orientation := 0 }
+
+theorem lineOf_unannotated (ms : List Seg) : lineOf (unannotated ms) = lineOf ms := by
+  unfold lineOf unannotated
+  rw [List.map_map]; rfl
+
+/-- **the ring is the same with or without orientation annotations**, when the annotations are the ones annotation
+    writes for this group (`orientation_annotation`: a member running in its own direction carries the winding of the
+    joined line, a member that was turned around the opposite one) and the group encloses an area: `Ring(o)` turns the
+    line around in exactly the same cases -/
+theorem ringOf_annotations_agree (ms : List Seg) (o : Int) (ho : o = 1 ∨ o = -1) (hne : ms ≠ [])
+    (harea : area2 (lineOf ms) ≠ 0)
+    (hann : ∀ s ∈ ms, s.orientation = if s.reversed then - msOrientation ms else msOrientation ms) :
+    ringOf ms o = ringOf (unannotated ms) o := by
+  have hg : msOrientation ms = 1 ∨ msOrientation ms = -1 := by unfold msOrientation; split <;> simp
+  have hro : ringOrientation (lineOf ms) = msOrientation ms := by
+    unfold ringOrientation msOrientation
+    by_cases hp : area2 (lineOf ms) > 0
+    · simp [hp]
+    · have : area2 (lineOf ms) < 0 := by omega
+      simp [hp, this]
+  -- every member's test says "the group's winding is not the one asked for"
+  have htest : ∀ s ∈ ms, (s.orientation ≠ 0 ∧ (decide (s.orientation = o) = s.reversed)) ↔ msOrientation ms ≠ o := by
+    intro s hs
+    have := hann s hs
+    rcases hg with g | g <;> rcases ho with rfl | rfl <;> cases hr : s.reversed <;> simp [hr, g] at this ⊢ <;> simp [this]
+  have hany : (ms.any fun s => decide (s.orientation ≠ 0 ∧ (decide (s.orientation = o) = s.reversed))) = decide (msOrientation ms ≠ o) := by
+    cases ms with
+    | nil => exact absurd rfl hne
+    | cons s rest =>
+      by_cases hm : msOrientation (s :: rest) ≠ o
+      · have h1 : ((s :: rest).any fun x => decide (x.orientation ≠ 0 ∧ (decide (x.orientation = o) = x.reversed))) = true :=
+          List.any_eq_true.mpr ⟨s, by simp, decide_eq_true ((htest s (by simp)).mpr hm)⟩
+        rw [h1]; exact (decide_eq_true hm).symm
+      · have h1 : ((s :: rest).any fun x => decide (x.orientation ≠ 0 ∧ (decide (x.orientation = o) = x.reversed))) = false := by
+          rw [List.any_eq_false]
+          intro x hx h
+          exact hm ((htest x hx).mp (of_decide_eq_true h))
+        rw [h1]; exact (decide_eq_false hm).symm
+  have hhave : (ms.any fun s => decide (s.orientation ≠ 0)) = true := by
+    cases ms with
+    | nil => exact absurd rfl hne
+    | cons s rest =>
+      have := hann s (by simp)
+      have : s.orientation ≠ 0 := by
+        rcases hg with g | g <;> cases hr : s.reversed <;> simp [hr, g] at this <;> omega
+      simp [List.any_cons, this]
+  have hnone : ((unannotated ms).any fun s => decide (s.orientation ≠ 0)) = false := by
+    rw [List.any_eq_false]; intro x hx
+    unfold unannotated at hx
+    obtain ⟨s, _, rfl⟩ := List.mem_map.mp hx
+    simp
+  unfold ringOf
+  simp only [lineOf_unannotated, hhave, hnone, hany, hro]
+  by_cases hm : msOrientation ms ≠ o <;> simp [hm]
+
 /-! non-vacuity: a square cut at three of its corners and a triangle cut at one vertex -/
 def exRings : List CutRing := [⟨[(0,0),(4,0),(4,4),(0,4)], [0, 1, 3]⟩, ⟨[(1,1),(2,1),(1,2)], [2]⟩]
 example : ∀ r ∈ exRings, r.Valid := by
@@ -301,5 +360,17 @@ def exCutSegs : List Seg := [
   (Seg.mk' 3 0 [(1,2),(1,1),(2,1),(1,2)]), (Seg.mk' 1 0 [(4,0),(4,4),(0,4)]).rev, Seg.mk' 0 0 [(0,0),(4,0)], (Seg.mk' 2 0 [(0,4),(0,0)]).rev]
 example : (join exCutSegs).map (fun g => (msFirst g, msLast g)) =
     [(some (0,0), some (0,0)), (some (1,2), some (1,2))] := by decide
+
+/-- a counter-clockwise square in two pieces, the second one turned around by the join: annotated as annotation
+    writes them (+1 for the piece in its own direction, -1 for the reversed one) -/
+def exAnn : List Seg := [
+  { idx := 0, orientation := 1, reversed := false, line := [(0,0),(4,0),(4,4)], full := [(0,0),(4,0),(4,4)] },
+  { idx := 1, orientation := -1, reversed := true, line := [(0,4),(0,0)], full := [(4,4),(0,4),(0,0)] }]
+example : msOrientation exAnn = 1 ∧ area2 (lineOf exAnn) ≠ 0 := by decide
+example : ∀ s ∈ exAnn, s.orientation = if s.reversed then - msOrientation exAnn else msOrientation exAnn := by
+  intro s hs
+  simp only [exAnn, List.mem_cons, List.not_mem_nil, or_false] at hs
+  rcases hs with rfl | rfl <;> decide
+example : ringOf exAnn (-1) = ringOf (unannotated exAnn) (-1) ∧ ringOf exAnn (-1) = [(0,0),(0,4),(4,4),(4,0),(0,0)] := by decide
 
 end OsmVerif.Props.C16
